@@ -252,12 +252,18 @@ func (m *ConfigManager) UpdateSettings(s Settings) error {
 		}
 	}
 
+	// persist first: the in-memory copy only changes once the store holds
+	// the new settings
+	if err := m.store.UpdateSettings(s); err != nil {
+		return err
+	}
+
 	m.mu.Lock()
 	m.settings = s
 	m.setRateLimit(s.IngressLimit, s.EgressLimit)
 	m.resetDDNS()
 	m.mu.Unlock()
-	return m.store.UpdateSettings(s)
+	return nil
 }
 
 // Settings returns the host's current settings.
